@@ -450,3 +450,129 @@ def exists_form(I: Interp, g, tree):
         pred = gs[0][0] if gs[0][1] else mk_not(gs[0][0])
         return li.get("iter"), lid, pred
     return None
+
+
+
+def specialise(tree, assign):
+    """The effect tree under a truth assignment of atomic tests: decided if-nodes are replaced by the taken branch."""
+    out = []
+    for n in tree:
+        k = n[0]
+        if k == "if":
+            try:
+                v = eval_test(n[1], assign)
+            except KeyError:
+                out.append(("if", n[1], specialise(n[2], assign), specialise(n[3], assign)) + tuple(n[4:]))
+                continue
+            out.extend(specialise(n[2] if v else n[3], assign))
+        elif k == "loop":
+            out.append(("loop", n[1], specialise(n[2], assign)) + tuple(n[3:]))
+        elif k == "call":
+            out.append(("call", n[1], specialise(n[2], assign)) + tuple(n[3:]))
+        elif k == "try":
+            out.append(("try", specialise(n[1], assign), [(h[0], h[1], specialise(h[2], assign)) + tuple(h[3:]) for h in n[2]]) + tuple(n[3:]))
+        else:
+            out.append(n)
+    return out
+
+
+
+def str_nf(I: Interp, t, tree, stringy=lambda x: False):
+    """Normal form of a string-building term: ('cat', (parts...)) with adjacent constants merged; parts are constants,
+    ('cond', c, nf, nf), ('join', sep, segments with normalised elements) for joins over loops, or opaque terms.
+    Concatenation, ''.join over a list of known elements, f-strings and sep.join are all flattened, so any way of
+    assembling the same text has the same normal form.  ``stringy(x)``: x is known to be a str (str(x) == x)."""
+    def parts(x):
+        if not isinstance(x, tuple) or not x:
+            return [x]
+        k = x[0]
+        if k == "binop" and x[1] == "Add":
+            return parts(x[2]) + parts(x[3])
+        if k == "fstr":
+            out = []
+            for p_ in x[1]:
+                if is_const(p_) and isinstance(p_[1], str):
+                    out.append(p_)
+                elif stringy(p_):
+                    out.extend(parts(p_))
+                else:
+                    out.extend(parts(("call", "str", (p_,), ())))
+            return out
+        if k == "call" and x[1] == "str" and len(x[2]) == 1 and (stringy(x[2][0]) or (is_const(x[2][0]) and isinstance(x[2][0][1], str))):
+            return parts(x[2][0])
+        if k == "call" and x[1] == ".join" and len(x[2]) == 2 and is_const(x[2][0]) and isinstance(x[2][0][1], str):
+            sep, coll = x[2][0], x[2][1]
+            if coll[0] == "tuple":
+                segs = [("e", e) for e in coll[1]]
+            elif isinstance(I.obj(coll), HList) or coll[0] == "cond":
+                segs = flatten_segs(I, value_segs(I, coll, tree), tree)
+            else:
+                return [x]
+            if all(sg[0] == "e" for sg in segs):
+                out = []
+                for i, sg in enumerate(segs):
+                    if i and sep[1]:
+                        out.append(sep)
+                    out.extend(parts(sg[1]))
+                return out
+            return [("join", sep[1], norm_segs(segs))]
+        if k == "cond":
+            return [("cond", x[1], cat(parts(x[2])), cat(parts(x[3])))]
+        return [x]
+
+    def norm_segs(segs):
+        out = []
+        for sg in segs:
+            if sg[0] == "e":
+                out.append(("e", cat(parts(sg[1]))))
+            elif sg[0] == "loop":
+                out.append(("loop", sg[1], tuple(norm_segs(sg[2]))))
+            elif sg[0] == "if":
+                out.append(("if", sg[1], tuple(norm_segs(sg[2])), tuple(norm_segs(sg[3]))))
+            else:
+                out.append(sg)
+        return tuple(out)
+
+    def cat(ps):
+        out = []
+        for p_ in ps:
+            if is_const(p_) and isinstance(p_[1], str):
+                if p_[1] == "":
+                    continue
+                if out and is_const(out[-1]) and isinstance(out[-1][1], str):
+                    out[-1] = const(out[-1][1] + p_[1])
+                    continue
+            out.append(p_)
+        if not out:
+            return const("")
+        if len(out) == 1:
+            return out[0]
+        return ("cat", tuple(out))
+
+    return cat(parts(t))
+
+
+
+def guards_imply(guards, atom, value=True, limit=10) -> bool:
+    """Every truth assignment (of the atomic tests) that satisfies all ``guards`` [(cond, polarity)] gives ``atom`` the
+    truth value ``value``."""
+    import itertools
+    atoms = []
+    for c, _p in guards:
+        _test_atoms(c, atoms)
+    if atom not in atoms:
+        return False
+    if len(atoms) > limit:
+        return False
+    some = False
+    for bits in itertools.product((False, True), repeat=len(atoms)):
+        a = dict(zip(atoms, bits))
+        try:
+            sat = all(eval_test(c, a) == p_ for c, p_ in guards)
+        except KeyError:
+            return False
+        if sat:
+            some = True
+            if a[atom] != value:
+                return False
+    return some
